@@ -93,7 +93,7 @@ impl fmt::Display for Final {
                 }
                 for (n, tmr) in Tmr::TWO_TWO_N.iter().enumerate().skip(1) {
                     if data.node.tmr == *tmr {
-                        write!(f, "2^{}", 1 << n)?;
+                        write!(f, "2^{}", 1u64 << n)?;
                         skipping = Some(data.node.tmr);
                     }
                 }
